@@ -7,6 +7,7 @@ import Goat.Proofs.ScopeSignalErr
 import Goat.Proofs.ScopeSignalDone
 import Goat.Proofs.ScopeSignalProp
 import Goat.Proofs.ScopeSignalWg
+import Goat.Proofs.ScopeSignalMonitor
 
 namespace Goat.ScopeSignal
 open Goat.LTS
@@ -18,10 +19,11 @@ structure AllInv (s : State) : Prop where
   done : InvDone s
   prop : InvProp s
   wg : InvWg s
+  pk : InvPK s
 
 theorem allInv_tr (s : State) (t : Nat) (s' : State) (h : AllInv s) (hs : Tr s t s') : AllInv s' :=
   ⟨invMu_tr h.mu hs, invOnce_tr h.once hs, invErr_tr h.mu h.err hs, invDone_tr h.mu h.once h.done hs,
-   invProp_tr h.mu h.prop hs, invWg_tr h.wg hs⟩
+   invProp_tr h.mu h.prop hs, invWg_tr h.wg hs, invPK_tr h.pk hs⟩
 
 /-! ### the initial state -/
 
@@ -42,7 +44,7 @@ theorem wsum_init {cfg : Config} (f : PC → Nat) (hf : ∀ pc, pc.initial → f
   exact hf pc (init_thread' ht)
 
 theorem allInv_init (cfg : Config) : AllInv (initState cfg) := by
-  refine ⟨⟨?_, ?_, ?_, ?_⟩, ⟨?_, ?_⟩, ?_, ⟨?_, ?_, ?_, ?_⟩, ⟨?_, ?_, ?_, ?_, ?_⟩, ?_⟩
+  refine ⟨⟨?_, ?_, ?_, ?_⟩, ⟨?_, ?_⟩, ?_, ⟨?_, ?_, ?_, ?_⟩, ⟨?_, ?_, ?_, ?_, ?_⟩, ?_, ?_⟩
   -- InvMu
   · intro c x t hx hmu
     obtain ⟨k, _, rfl⟩ := init_ctx hx
@@ -104,6 +106,10 @@ theorem allInv_init (cfg : Config) : AllInv (initState cfg) := by
     split
     · rename_i sc hsc; exact (init_scope hsc).1
     · rfl
+  -- InvPK
+  · intro c x hx
+    obtain ⟨k, _, rfl⟩ := init_ctx hx
+    exact Nat.zero_le _
 
 /-- every reachable state of the repaired system satisfies all invariants -/
 theorem reachable_allInv {cfg : Config} {s : State} (h : Reachable (sys Variant.fixed cfg) s) : AllInv s :=
@@ -198,5 +204,56 @@ theorem prop_once {s : State} (h : AllInv s) {c : Nat} {x : Ctx} (hx : s.ctxs[c]
     x.propKills + x.propStops ≤ 1 := by
   have := h.prop.once c x hx
   omega
+
+/-- the history of a quiescent context, as recorded from the ghost fields, is accepted by the monitor -/
+theorem conforms_histOf {s : State} (h : AllInv s) {c : Nat} {x : Ctx}
+    (hx : s.ctxs[c]? = some x) (hq : s.quiet c) : conforms (histOf s x) = true := by
+  have f1 := errors_count h hx hq (fun e => !isCanceled e)
+  have f2 := errors_count h hx hq isCanceled
+  have hk := h.pk c x hx
+  have h1 := prop_once h hx
+  have hlenE := length_split x.errors
+  have hsound := h.done.sound c x hx
+  have hcomplete := fun hsd => done_of_should h hx hq hsd
+  simp only [Ctx.shouldBeDone] at hsound hcomplete
+  have hne : x.errors ≠ [] ↔ 0 < x.errors.length := by
+    cases x.errors <;> simp
+  rw [conforms_iff]
+  refine ⟨rfl, f1, ?_, ?_, ?_, ?_⟩
+  · -- Canceled entries: the callers' Kills, plus at most one justified propagated Kill
+    show x.errors.countP isCanceled = x.requested.countP isCanceled - x.propKills ∨ _
+    by_cases hz : x.propKills = 0
+    · left; rw [f2, hz]; rfl
+    · right
+      obtain ⟨p, px, hkind, hp, hpd, hpe⟩ := kill_justified h hx (by omega)
+      simp only [histOf, hkind, hp]
+      refine ⟨trivial, hpd, ?_, ?_⟩
+      · cases hl : px.errors with
+        | nil => exact absurd hl hpe
+        | cons a l => rfl
+      · rw [f2]; omega
+  · show (!x.errors.isEmpty) = true ↔ 0 < x.errors.countP (fun e => !isCanceled e) + x.errors.countP isCanceled
+    rw [← hlenE]
+    cases x.errors <;> simp
+  · show 0 < x.stopCalls + x.requested.countP (fun e => !isCanceled e) +
+      (x.requested.countP isCanceled - x.propKills) → x.done = true
+    intro hp
+    have : 1 ≤ x.closes := by
+      apply hcomplete
+      by_cases hs : 0 < x.stopCalls
+      · exact Or.inl hs
+      · right; right
+        rw [hne, hlenE, f1, f2]; omega
+    simpa [Ctx.done] using this
+  · show x.done = true → 0 < x.stopCalls + x.errors.countP (fun e => !isCanceled e) + x.errors.countP isCanceled ∨ _
+    intro hd
+    rcases hsound (by simpa [Ctx.done] using hd) with h' | h' | h'
+    · left; omega
+    · right
+      obtain ⟨p, px, hkind, hp, hpd⟩ := stop_justified h hx h'
+      simp only [histOf, hkind, hp]
+      exact ⟨trivial, hpd⟩
+    · left
+      rw [hne, hlenE] at h'; omega
 
 end Goat.ScopeSignal
